@@ -135,10 +135,15 @@ static void sched_start(int optok)
   if (g_sched_starts < 3) g_sched_starts++;
 }
 /* std::optional<operation_state_type> op_state of drop_operation_state / require_started */
-static bool os_has_value(struct op *o) { return o->op_state_has; }
+static bool os_has_value(struct op *o) { ALIVE("op_state (optional)"); return o->op_state_has; }
 static void os_reset(struct op *o) { o->op_state_has = false; if (g_os_resets < 3) g_os_resets++; if (g_ref_bound) g_ref_dangling = true; }
-static int os_deref(struct op *o) { VX_ASSERT(o->op_state_has, "dereference of an empty std::optional (op_state)"); return 0; }
-static void child_start(int optok) { if (g_child_starts < 3) g_child_starts++; }
+static int os_deref(struct op *o) { ALIVE("op_state (optional)"); VX_ASSERT(o->op_state_has, "dereference of an empty std::optional (op_state)"); return 0; }
+/* start(child): the child may complete INLINE, and the completion may destroy / release this operation state (start_detached's
+ * release(), ensure_started's os.reset(), a consumer that owns the state): from here on the operation state may be gone
+ * (added after seeded change C03-8 was missed) */
+static void child_start(int optok) { ALIVE("the operation state (start of the child)"); if (g_child_starts < 3) g_child_starts++; if (nondet_bool()) g_alive = false; }
+static void vx_alive_touch(void) { ALIVE("a member of the operation state"); }
+#define VX_MEMBER(o, m) (*(vx_alive_touch(), &(o)->m))
 /* a local decay-copy `T local(std::forward<T>(x))`: may throw */
 /* `auto&& local = std::forward<T>(x)`: NO copy, the local is a reference to the caller's object -- which the
  * upstream operation state may own (when_all, split, ... signal references into their own storage) */
